@@ -673,11 +673,17 @@ Definition do_sop (s : st) (o : nat) (had_ck : bool) (op : sop) : st * sres * li
   | SGet k =>
     (s, SVal (match data_of s o with Some d => kv_get d k | None => None end), [])
   | SGetDel k =>
+    (* found: delete, then one direct save whose error is dropped (the
+       function has no error result); not found / nil map: nothing *)
     match data_of s o with
-    | Some d => (match kv_get d k with
-                 | Some v => hupd s o (fun r => set_data r (Some (kv_del d k)))
-                 | None => s
-                 end, SVal (kv_get d k), [])
+    | Some d =>
+      match kv_get d k with
+      | Some v =>
+        let s := hupd s o (fun r => set_data r (Some (kv_del d k))) in
+        let '(s, _) := save_direct s o in
+        (s, SVal (Some v), [])
+      | None => (s, SVal None, [])
+      end
     | None => (s, SVal None, [])
     end
   | SLogIn u ex => let '(s, r, cks) := login s o u ex in (s, of_result r, cks)
